@@ -13,7 +13,8 @@ def rev(k):
 
 def fresh_dict(S0, S, res):
     return [('fresh', z3.And(res.t >= S0.alloc, res.t < S.alloc), 'property'),
-            ('is_dict', S.cls(res.t) == tag('dict'), 'aux')]
+            ('is_dict', S.cls(res.t) == tag('dict'), 'aux'),
+            ('only_dicts_allocated', (lambda r: z3.ForAll([r], z3.Implies(z3.And(r >= S0.alloc, r < S.alloc), S.cls(r) == tag('dict'))))(fresh('r', I)), 'aux')]
 
 
 only_local = lambda L, ret: {'dom': lambda r: r == ret, 'valR': lambda r: r == ret}
